@@ -265,6 +265,10 @@ def run_check(check_id, tier, repo, jobs, seed):
     return exit_code
 
 
+def cid_of(mod):
+    return getattr(mod, "ID", "?")
+
+
 def run_replay(check_id, path, repo, as_json):
     from . import backend
     backend.setup(repo)
@@ -276,8 +280,27 @@ def run_replay(check_id, path, repo, as_json):
         print("pyx-model unavailable: %s" % backend.pyx_error())
         return 2
     backend.use("py" if be == "both" else be)
-    with common.quiet():
-        r = mod.replay(rec)
+    if rec.get("case", {}).get("harness_exception"):
+        # re-run the recorded state through the check's own driver
+        task = dict(rec["case"]["task"], shard=0, nshards=1, backend=be)
+        task["regime"] = ["dense", rec["case"]["clock"], rec["case"]["clock"]]
+        from . import pairs as _pairs, lattice as _lat
+        r = Result()
+        with common.quiet():
+            rr = _pairs.run_states(dict(task, N=len(rec["case"]["masks"])),
+                                   lambda r_, k_, m_, t_: mod.check_state(r_, k_, m_, t_)
+                                   if tuple(m_) == tuple(rec["case"]["masks"]) else None, cid_of(mod))
+        r = rr
+    else:
+        with common.quiet():
+            try:
+                r = mod.replay(rec)
+            except Exception as e:
+                r = Result()
+                r.violation(rec["property"], "harness.exception", be,
+                            "harness.exception/%s" % type(e).__name__, rec["case"],
+                            "invariant evaluates", "%s: %s" % (type(e).__name__, e),
+                            "evaluating the invariant raised")
     viol = []
     for sig in sorted(r.viol):
         for v in r.viol[sig]:
